@@ -292,6 +292,121 @@ inline bool putArray(S& s, const std::string& t, const std::vector<std::string>&
 	return false;
 }
 
+// ---- the caller's long-lived value objects (the `pool` of spec/EndianStream.tla) ---------------------------------------
+// One real object per pool entry, kept for the whole history and written again and again: a scalar variable, an
+// Array<T> together with a second handle sharing its buffer (Array copies are shallow and reference-counted), or a
+// String together with a plain character buffer.  elems(h) projects the object's present value (seen through handle
+// h) to bit patterns; the harnesses compare that with the specification's pool, they never compute what it should be.
+struct Obj
+{
+	std::string kind, type;
+	Obj(const std::string& k, const std::string& t) : kind(k), type(t) {}
+	virtual ~Obj() {}
+	virtual size_t size() const = 0;
+	virtual void set(size_t j, const std::string& msb) = 0;          // the caller assigns to element j (0-based)
+	virtual std::vector<std::string> elems(int handle) const = 0;    // handle 0: the object, 1: the sharing handle / raw buffer
+};
+
+template <class T>
+struct ScalarObj : Obj
+{
+	T x;
+	ScalarObj(const std::string& t, const std::vector<std::string>& el) : Obj("w", t), x(fromMsb<T>(el[0])) {}
+	size_t size() const { return 1; }
+	void set(size_t, const std::string& msb) { x = fromMsb<T>(msb); }
+	std::vector<std::string> elems(int) const { return std::vector<std::string>(1, toMsb(x)); }
+};
+
+template <class T>
+struct ArrayObj : Obj
+{
+	Array<T> a;      // the caller's array
+	Array<T> share;  // another handle on the same buffer (what `Array<T> b = a;` gives)
+	ArrayObj(const std::string& t, const std::vector<std::string>& el) : Obj("wa", t)
+	{
+		for (size_t i = 0; i < el.size(); i++) a << fromMsb<T>(el[i]);
+		share = a;
+	}
+	size_t size() const { return (size_t)a.length(); }
+	void set(size_t j, const std::string& msb)
+	{
+		a[(int)j] = fromMsb<T>(msb);
+		share = a;
+	}
+	std::vector<std::string> elems(int handle) const
+	{
+		const Array<T>& h = handle ? share : a;
+		std::vector<std::string> r;
+		for (int i = 0; i < h.length(); i++) r.push_back(toMsb(h[i]));
+		return r;
+	}
+};
+
+struct StringObj : Obj
+{
+	String s;
+	std::vector<char> raw; // the same characters, NUL-terminated, for operator<<(const char*)
+	explicit StringObj(const std::vector<std::string>& el) : Obj("ws", "ch")
+	{
+		std::string b;
+		for (size_t i = 0; i < el.size(); i++) b += el[i];
+		s = String(b.c_str(), (int)b.size());
+		raw.assign(b.begin(), b.end());
+		raw.push_back(0);
+	}
+	size_t size() const { return (size_t)s.length(); }
+	void set(size_t j, const std::string& msb)
+	{
+		s[(int)j] = msb[0];
+		raw[j] = msb[0];
+	}
+	std::vector<std::string> elems(int handle) const
+	{
+		std::vector<std::string> r;
+		if (handle) for (size_t i = 0; i + 1 < raw.size(); i++) r.push_back(std::string(1, raw[i]));
+		else for (int i = 0; i < s.length(); i++) r.push_back(std::string(1, s[i]));
+		return r;
+	}
+};
+
+inline Obj* newObj(const std::string& k, const std::string& t, const std::vector<std::string>& el)
+{
+	if (k == "ws") return new StringObj(el);
+#define X(N, T) if (t == N) return k == "w" ? (el.size() == 1 ? (Obj*)new ScalarObj<T>(t, el) : 0) : k == "wa" ? (Obj*)new ArrayObj<T>(t, el) : 0;
+	C16_TYPES(X)
+#undef X
+	return 0;
+}
+
+// stream << object; `variant` picks the handle the value is passed through (the object itself / the sharing handle,
+// String / const char*)
+template <class S>
+inline bool putObj(S& s, Obj* o, int variant)
+{
+	if (o->kind == "ws")
+	{
+		StringObj* so = static_cast<StringObj*>(o);
+		if (variant & 1) s.putRaw(&so->raw[0]);
+		else s.put(so->s);
+		return true;
+	}
+#define X(N, T) if (o->type == N) { \
+		if (o->kind == "w") s.put(static_cast<ScalarObj<T>*>(o)->x); \
+		else if (variant & 1) s.put(static_cast<ArrayObj<T>*>(o)->share); \
+		else s.put(static_cast<ArrayObj<T>*>(o)->a); \
+		return true; }
+	C16_TYPES(X)
+#undef X
+	return false;
+}
+
+struct Pool
+{
+	std::vector<Obj*> objs;
+	~Pool() { for (size_t i = 0; i < objs.size(); i++) delete objs[i]; }
+	Obj* at(long i) { return i >= 1 && (size_t)i <= objs.size() ? objs[(size_t)i - 1] : 0; } // 1-based, as in the specification
+};
+
 // reads one scalar of type t and returns its bit pattern (msb first)
 template <class S>
 inline bool getScalar(S& s, const std::string& t, std::string& msb)
